@@ -207,6 +207,13 @@ func (w *roundWorld) refillPools() {
 	}
 	for len(w.results) < target {
 		uid := genUpkeepID(r, r.Chance(50))
+		if len(w.results) > 0 && r.Chance(30) {
+			// another log of an upkeep that already has results: same upkeep id, different unit of work
+			prev := w.results[r.Intn(len(w.results))]
+			if utg(prev.UpkeepID) == types.LogTrigger {
+				uid = prev.UpkeepID
+			}
+		}
 		blk := w.height - uint64(r.Intn(int(min64(w.height, 5))))
 		res := genResult(r, uid, blk)
 		res.Trigger.BlockHash = w.hashAt(blk, false)
@@ -316,6 +323,16 @@ func collisionPair(r *Rng, base ocr2keepers.CheckResult) (ocr2keepers.CheckResul
 	return a, b
 }
 
+// collisionTriple returns three pairwise different valid results with one UniqueID (the same byte string split three ways
+// over PerformData | FastGasWei | LinkNative).
+func collisionTriple(base ocr2keepers.CheckResult) [3]ocr2keepers.CheckResult {
+	a, b, c := base, base, base
+	a.PerformData, a.FastGasWei, a.LinkNative = []byte{0xaa}, big.NewInt(0xbb), new(big.Int).SetBytes([]byte{0xcc, 0x09, 0xdd})
+	b.PerformData, b.FastGasWei, b.LinkNative = []byte{0xaa, 0x09, 0xbb}, big.NewInt(0xcc), big.NewInt(0xdd)
+	c.PerformData, c.FastGasWei, c.LinkNative = []byte{0xaa}, new(big.Int).SetBytes([]byte{0xbb, 0x09, 0xcc}), big.NewInt(0xdd)
+	return [3]ocr2keepers.CheckResult{a, b, c}
+}
+
 type genObs struct {
 	oracle int
 	obs    ocr2keepersv3.AutomationObservation
@@ -366,6 +383,46 @@ func (w *roundWorld) genRoundObservations(em *Emitter) []genObs {
 			}
 			if !dup && len(o.Performable) < ocr2keepersv3.ObservationPerformablesLimit {
 				o.Performable = append(o.Performable, res)
+			}
+		}
+	}
+	// --- split votes: two or three different results for ONE unit of work, each with exactly f+1 voters
+	if len(honest) >= 2*(w.f+1) && len(w.results) > 0 && r.Chance(35) {
+		base := w.results[r.Intn(len(w.results))]
+		var variants []ocr2keepers.CheckResult
+		switch r.Intn(3) {
+		case 0: // UniqueID collision partners
+			a, b := collisionPair(r, base)
+			variants = []ocr2keepers.CheckResult{a, b}
+		case 1:
+			t := collisionTriple(base)
+			variants = t[:]
+		default: // plain near-duplicates (different digests)
+			v := base
+			v.PerformData = append([]byte{0x17}, base.PerformData...)
+			v2 := base
+			v2.GasAllocated = base.GasAllocated + 7
+			variants = []ocr2keepers.CheckResult{base, v, v2}
+		}
+		em.Hit("split-vote")
+		order := r.Perm(len(honest))
+		k := 0
+		for vi, v := range variants {
+			if k+w.f+1 > len(order) {
+				// remaining variants get a single vote
+				if k < len(order) {
+					setResult(&honest[order[k]].obs, v)
+					k++
+				}
+				continue
+			}
+			votes := w.f + 1
+			if vi > 0 && r.Chance(30) {
+				votes = w.f // just below quorum
+			}
+			for j := 0; j < votes && k < len(order); j++ {
+				setResult(&honest[order[k]].obs, v)
+				k++
 			}
 		}
 	}
@@ -435,7 +492,7 @@ func (w *roundWorld) genRoundObservations(em *Emitter) []genObs {
 	// --- Byzantine observations
 	for i := 0; i < nByz; i++ {
 		o := &obs[i].obs
-		kind := r.Intn(9)
+		kind := r.Intn(11)
 		em.Hit(fmt.Sprintf("byz-kind-%d", kind))
 		switch kind {
 		case 0: // near-duplicates of honest results differing in exactly one field
@@ -523,6 +580,37 @@ func (w *roundWorld) genRoundObservations(em *Emitter) []genObs {
 			if r.Chance(30) && len(o.BlockHistory) > 1 {
 				o.BlockHistory[1].Number = o.BlockHistory[0].Number // duplicate number: invalid
 			}
+		case 9: // the same result (or the same work id) twice, NOT adjacent: [A, B, A]
+			if len(w.results) >= 2 {
+				a := w.results[r.Intn(len(w.results))]
+				var mid []ocr2keepers.CheckResult
+				for _, x := range w.results {
+					if x.WorkID != a.WorkID && len(mid) < r.Range(1, 3) {
+						mid = append(mid, x)
+					}
+				}
+				a2 := a
+				if r.Chance(40) {
+					a2.GasAllocated++
+				}
+				o.Performable = append(append([]ocr2keepers.CheckResult{a}, mid...), a2)
+				if r.Chance(50) { // and a proposal / block-number duplicate of the same shape
+					if len(o.BlockHistory) >= 3 {
+						o.BlockHistory[2].Number = o.BlockHistory[0].Number
+					}
+				}
+			}
+		case 10: // third (and first) member of a UniqueID collision triple, the honest ones hold the second
+			if len(w.results) > 0 && len(honest) > 0 {
+				t := collisionTriple(w.results[r.Intn(len(w.results))])
+				setResult(o, t[r.Intn(3)])
+				for hk, hv := range r.Perm(len(honest)) {
+					if hk >= 2 {
+						break
+					}
+					setResult(&honest[hv].obs, t[(hk+1)%3])
+				}
+			}
 		case 8: // proposal flood: too many, duplicates, wrong work id
 			for k := 0; k < r.Range(1, 14); k++ {
 				uid := genUpkeepID(r, r.Bool())
@@ -542,6 +630,19 @@ func (w *roundWorld) genRoundObservations(em *Emitter) []genObs {
 		out[i] = obs[k]
 	}
 	return out
+}
+
+// setResult puts v into the observation, replacing any result for the same unit of work.
+func setResult(o *ocr2keepersv3.AutomationObservation, v ocr2keepers.CheckResult) {
+	for i := range o.Performable {
+		if o.Performable[i].WorkID == v.WorkID {
+			o.Performable[i] = v
+			return
+		}
+	}
+	if len(o.Performable) < ocr2keepersv3.ObservationPerformablesLimit {
+		o.Performable = append(o.Performable, v)
+	}
 }
 
 func encodeObs(g genObs) []byte {
